@@ -25,6 +25,7 @@ pub struct Stats {
     pub distinct: HashSet<u64>,
     pub samples: Vec<String>,
     pub fails: Vec<String>,
+    pub categories: HashSet<String>,
     pub bound: String,
 }
 
@@ -53,7 +54,7 @@ fn jstr(s: &str) -> String {
 
 impl Stats {
     pub fn new(id: &'static str, bound: &str) -> Stats {
-        Stats { id, evals: 0, distinct: HashSet::new(), samples: vec![], fails: vec![], bound: bound.to_string() }
+        Stats { id, evals: 0, distinct: HashSet::new(), samples: vec![], fails: vec![], categories: HashSet::new(), bound: bound.to_string() }
     }
     /// one executed case; `key` identifies it, `nontrivial` says whether it exercises the property
     pub fn case<T: Hash>(&mut self, key: &T, nontrivial: bool) {
@@ -67,15 +68,37 @@ impl Stats {
             self.samples.push(s);
         }
     }
+    /// Record a failing case. Failures are grouped by category (the message with the bracketed input
+    /// name removed and digits normalised); the first case of each category is written out and reported.
     pub fn fail(&mut self, what: String, file: Option<&[u8]>) {
-        let mut w = what;
-        if let (Some(bytes), Ok(dir)) = (file, std::env::var("VERIF_XOUT")) {
-            let p = format!("{}/{}-{}.aseprite", dir, self.id, self.fails.len());
-            if std::fs::write(&p, bytes).is_ok() {
-                w = format!("{} [input file: {}]", w, p);
+        let mut cat = String::new();
+        let mut depth = 0;
+        let mut last_digit = false;
+        for c in what.chars() {
+            match c {
+                '[' => depth += 1,
+                ']' => depth -= 1,
+                _ if depth > 0 => {}
+                c if c.is_ascii_digit() => {
+                    if !last_digit {
+                        cat.push('N');
+                    }
+                    last_digit = true;
+                    continue;
+                }
+                c => cat.push(c),
             }
+            last_digit = false;
         }
-        if self.fails.len() < 5 {
+        let first_of_category = self.categories.insert(cat);
+        let mut w = what;
+        if first_of_category && self.categories.len() <= 60 {
+            if let (Some(bytes), Ok(dir)) = (file, std::env::var("VERIF_XOUT")) {
+                let p = format!("{}/{}-{}.aseprite", dir, self.id, self.categories.len() - 1);
+                if std::fs::write(&p, bytes).is_ok() {
+                    w = format!("{} [input file: {}]", w, p);
+                }
+            }
             println!("XFAIL {{\"id\":{},\"what\":{}}}", jstr(self.id), jstr(&w));
         }
         self.fails.push(w);
